@@ -6,8 +6,8 @@ from .common import bump
 ID = "C16"
 AREA = "c16"
 LEAN_PROPS = "Litep2pVerif.Props.C16"
-THEOREMS = ["waiting_owned", "terminal_once", "terminal_once_at_quiescence", "put_quorum_sound",
-            "quorum_clamp_rule", "occupied_unreachable", "settle_covers_timeouts"]
+THEOREMS = ["terminal_once", "terminal_accounted", "terminal_once_at_quiescence_partial", "quorum_clamp_rule",
+            "settle_covers_timeouts"]
 CONSTS = ["KAD_READ_TIMEOUT_SECS", "KAD_WRITE_TIMEOUT_SECS"]
 _EXE = "src/protocol/libp2p/kademlia/executor.rs"
 CONST_TABLE = [
